@@ -47,7 +47,7 @@ func (callEngine) Meta(prop, tier string) meta {
 	switch prop {
 	case "C02":
 		return meta{Level: "exploration",
-			Rule: "case = world (1-3 model files, 1-3 tasks, <= 10 calls) + a serial interleaving of the tasks' calls. Calls: Run with fresh tensors, Run with the very same tensor objects again, Run with an earlier call's outputs fed back, Run with one invalid input, Run aborted by an injected operator error/panic at node k (before Init / before ValidateInputs / before Apply / after Apply), accessors, reload (also of a bit-flipped copy). After every call: outcome kind and every output bit for bit equal the same call alone on a freshly loaded Model; every caller tensor equals its pre-call snapshot; every weight equals its load-time snapshot; proto.Equal(model protobuf, load-time clone). Enumerated first: every operator template x every (operand, binding mode) pair x 3 fixed reuse patterns, and the 4 sample models x the patterns; then seeded worlds. non-trivial = a later Run on the same Model re-uses tensor objects, takes fed-back outputs, or follows a rejected/aborted call; distinct = hash of the whole case.",
+			Rule: "case = world (1-3 model files, 1-3 tasks, <= 10 calls) + a serial interleaving of the tasks' calls. Calls: Run with fresh tensors, Run with the very same tensor objects again, Run with the same tensor objects after the caller overwrote their contents (buffer re-use), Run with an earlier call's outputs fed back (or its whole result map merged into the inputs), Run with one invalid input (incl. the nearest wrong element type holding real data), Run aborted by an injected operator error/panic at node k (before Init / before ValidateInputs / before Apply / after Apply), accessors, reload (also of a bit-flipped copy). After every call: outcome kind and every output bit for bit equal the same call alone on a freshly loaded Model; every caller tensor equals its pre-call snapshot; every weight equals its load-time snapshot; proto.Equal(model protobuf, load-time clone). Enumerated first: every operator template x every (operand, binding mode) pair x 3 fixed reuse patterns, and the 4 sample models x the patterns; then seeded worlds. non-trivial = a later Run on the same Model re-uses tensor objects, takes fed-back outputs, or follows a rejected/aborted call; distinct = hash of the whole case.",
 			Assumptions: []string{"the reference is the same code run alone on a freshly loaded Model: numerical correctness of operators is not decided here", "a bad call carries exactly one invalid input so the expected outcome kind does not depend on map iteration order", "error messages are not compared, only ok/error/panic"},
 			Real:        real, Stub: stub,
 			Exhaustive: "operator template x operand x binding-mode x reuse-pattern product (one seeded instance each)"}
